@@ -93,8 +93,9 @@ def fmt_w(w, wt):
 
 def recs_tokens(recs, L, wt):
     t = [wt, str(len(recs)), str(L)]
+    lab = lambda x: hexf(x) if isinstance(x, float) else str(x)   # floating-point labels travel as bit patterns
     for s, d, ws in recs:
-        t += [str(s), str(d)] + [fmt_w(w, wt) for w in ws]
+        t += [lab(s), lab(d)] + [fmt_w(w, wt) for w in ws]
     return t
 
 
